@@ -116,10 +116,14 @@ def main():
         if i not in claimed:
             continue
         text, note = extra.get(i, T.get(i, ("", "")))[:2] if i in extra or i in T else ("", "")
+        text += (" Further pinned theorems added after an audit of the statements against the property text "
+                 "(hypotheses discharged for all reachable states, conclusions strengthened to the property's words, "
+                 "histories of any length, damage operators on valid states, strengthened abstract machines) are listed in DESIGN.md section 12.5; "
+                 "every obligation named in the OBLIGATIONS line of Props/%s.v is re-checked (make + Print Assumptions) on every run." % i)
         checks.append(dict(
             property_id=i, quick_cmd=f"./vp check {i} --tier quick", thorough_cmd=f"./vp check {i} --tier thorough",
             evidence_file=f"evidence/{i}.json", replay_cmd_template="./vp replay {path}", engine="coq-model+correspondence",
-            level_claimed=dict(category="proof", text=text, design_ref="DESIGN.md section 7, " + i),
+            level_claimed=dict(category="proof", text=text, design_ref="DESIGN.md sections 7, 12.5 and 13, " + i),
             level_note=note,
             technique="machine-checked proof in Coq (Rocq 8.16) about an executable model + differential correspondence check of model vs implementation"))
     m = dict(
